@@ -40,11 +40,23 @@ Definition if_remove_vamm (w : world) (sender vamm : addr) : res (world * list s
   check zmem vamm (if_vamms i) else EGuard;
   Ok (set_if w (mkIfund (if_owner i) (if_engine i) (swap_remove vamm (if_vamms i)) true), []).
 
+Fixpoint vamms_open (w : world) (l : list addr) : res (list addr) :=
+  match l with
+  | [] => Ok []
+  | v :: rest =>
+      do vm <- get_vamm w v;
+      do r <- vamms_open w rest;
+      Ok (if v_open (vs vm) then v :: r else r)
+  end.
+
 Definition if_shutdown (w : world) (sender : addr) : res (world * list submsg) :=
   let i := w_if w in
   check (is_admin (if_owner i) sender || (sender =? A_IFUND)) else EGuard;
   check if_stored i else EGuard;
-  Ok (w, map (fun v => mkSub (MSetOpen v false) 0 RNever) (firstn 3 (if_vamms i))).
+  (* only the vAMMs that are still open are addressed; none left to close: error *)
+  do opens <- vamms_open w (firstn 3 (if_vamms i));
+  check negb (Z.of_nat (length opens) =? 0) else EGuard;
+  Ok (w, map (fun v => mkSub (MSetOpen v false) 0 RNever) opens).
 
 Definition if_withdraw (w : world) (sender amt : Z) : res (world * list submsg) :=
   let i := w_if w in
